@@ -20,16 +20,24 @@ ENGINE = 'c06'
 SHRINK_BUDGET = (40, 420)
 PIPES = ['generalized', 'spring', 'positional']
 
-QUICK = [('sep_plane', 36), ('sep_pair', 10), ('limits', 30), ('push', 9),
-         ('resting', 9), ('rebound', 8)]
-THOROUGH = [('sep_plane', 450), ('sep_pair', 120), ('limits', 400),
-            ('push', 100), ('resting', 100), ('rebound', 90)]
+QUICK = [('sep_plane', 32), ('sep_pair', 10), ('limits', 20),
+         ('limits_cat', 72), ('push', 9), ('resting', 9), ('rebound', 8)]
+THOROUGH = [('sep_plane', 450), ('sep_pair', 120), ('limits', 300),
+            ('limits_cat', 288), ('push', 100), ('resting', 100),
+            ('rebound', 90)]
+# systematic catalogue for the limit case: one world-attached link per
+# (joint stack, range placement, pipeline); which axes are limited rotates
+CAT_STACKS = ['h', 's', 'hh', 'ss', 'sh', 'hhh', 'sss', 'ssh']
+CAT_PLACE = ['around0', 'positive', 'negative']
 
 
 def _sched(tier):
   out = []
   for mode, n in (QUICK if tier == 'quick' else THOROUGH):
-    out += [mode] * n
+    if mode == 'limits_cat':
+      out += [f'limits_cat:{i}' for i in range(n)]
+    else:
+      out += [mode] * n
   # interleave deterministically so that every chunk sees every mode
   order = sorted(range(len(out)), key=lambda i: (i * 7919) % len(out))
   return [out[i] for i in order]
@@ -71,7 +79,13 @@ def evidence_info(prop, tier):
       'expected_probes': ['cls_far', 'cls_near', 'cls_graze', 'guard_stop',
                           'guarded_steps', 'gap_lt_5mm', 'limit_margin_lt_5pct',
                           'approach_stop', 'contact_became_active',
-                          'push_checked', 'rest_checked', 'rebound_checked'],
+                          'push_checked', 'rest_checked', 'rebound_checked',
+                          'catalogue_model'],
+      'complete_subspaces': [
+          'limit case catalogue: every (joint stack in h,s,hh,ss,sh,hhh,sss,ssh) '
+          'x (range around 0 / entirely positive / entirely negative) x pipeline '
+          'occurs as a one-link model in every run of the check (quick: once, '
+          'thorough: 4 variants); axes, limited axes, states are sampled'],
       'assumptions': [
           'separation guard: closed-form support height of sphere/box/capsule '
           '(plane pairs) or bounding spheres (geom pairs) from link poses of the '
@@ -160,11 +174,53 @@ def generate(prop, tier, seed, run):
              for _ in range(B)]
     return {'mode': mode, 'pipeline': pipe, 'model': model,
             'T': r.choice([1, 3, 8, 20]), 'lanes': lanes, 'x64': wc['x64']}
+  if mode.startswith('limits_cat'):
+    idx = int(mode.split(':')[1])
+    stack = CAT_STACKS[idx % 8]
+    place = CAT_PLACE[(idx // 8) % 3]
+    pipe = PIPES[(idx // 24) % 3]
+    n = len(stack)
+    R = modelgen.quat_to_mat(modelgen.rand_quat(r))
+    if r.random() < 0.5:
+      for row in R:
+        row[2] = -row[2]
+    perm = [0, 1, 2]
+    r.shuffle(perm)
+    which = r.choice([[k] for k in range(n)] + [list(range(n))])
+    joints = []
+    for k, ch in enumerate(stack):
+      j = {'type': 'hinge' if ch == 'h' else 'slide',
+           'axis': [R[0][perm[k]], R[1][perm[k]], R[2][perm[k]]]}
+      if k in which:
+        if place == 'around0':
+          j['range'] = [-r.uniform(0.3, 1.2), r.uniform(0.3, 1.2)]
+        else:
+          lo_ = r.uniform(0.05, 0.5)
+          rg = [lo_, lo_ + r.uniform(0.3, 0.8)]
+          j['range'] = rg if place == 'positive' else [-rg[1], -rg[0]]
+      if r.random() < 0.3:
+        j['damping'] = r.uniform(0.05, 1.0)
+      joints.append(j)
+    link = {'parent': -1, 'root': 'world',
+            'pos': [r.uniform(-0.3, 0.3), r.uniform(-0.3, 0.3), 1.0],
+            'quat': modelgen.rand_quat(r),
+            'anchor': [r.uniform(-0.1, 0.1) for _ in range(3)]
+            if r.random() < 0.5 else [0.0, 0.0, 0.0],
+            'joints': joints, 'geoms': [modelgen.gen_geom(r, (0, 0))]}
+    model = {'links': [link], 'acts': [], 'dt': r.choice([0.0005, 0.001, 0.002, 0.004]),
+             'gravity': [r.uniform(-2, 2), r.uniform(-2, 2), r.uniform(-10, 10)],
+             'plane': False, 'plane_ct': [0, 0]}
+    lanes = [{'seed': r.randint(0, 2**31 - 1),
+              'cls': r.choice(['inside', 'approach']), 'ctrl': 'zero',
+              'qd': r.choice([0.0, 0.3, 1.0])} for _ in range(6)]
+    return {'mode': 'limits', 'pipeline': pipe, 'model': model, 'T': 8,
+            'lanes': lanes, 'x64': wc['x64'],
+            'cat': {'stack': stack, 'place': place, 'limited': which}}
   if mode == 'limits':
     for _ in range(50):
       model = modelgen.gen_model(
           r, roots=r.choice(['free', 'world', 'mixed']), collide=(0, 0),
-          max_links=4 if tier == 'quick' else 6)
+          max_links=4 if tier == 'quick' else 6, limit_p=0.8, shift_p=0.5)
       if any('range' in j for l in model['links'] for j in l['joints']):
         break
     lanes = [{'seed': r.randint(0, 2**31 - 1),
@@ -201,6 +257,10 @@ def generate(prop, tier, seed, run):
 
 
 # ------------------------------------------------------------------ execution
+
+def canon_cat(c):
+  return None if not c else (c['stack'], c['place'], tuple(c['limited']))
+
 
 def _traj_fn(P, sys, T):
   """(q0, qd0, ctrl[T]) -> arrays with leading T+1 (incl. the initial state)."""
@@ -523,7 +583,9 @@ def _run_twin(g, ctx, x64):
           ctx.probe('contact_became_active')
     oracle = 'separated.state'
   ctx.state((mode, pipe, sysA.link_types, sorted({l['cls'] for l in lanes}),
-             x64, bool((ok < T).any())))
+             x64, bool((ok < T).any()), canon_cat(g.get('cat'))))
+  if g.get('cat'):
+    ctx.probe('catalogue_model')
   _compare(ctx, g, sig, A, Bt, ok, x64, oracle)
 
 
@@ -718,6 +780,7 @@ def execute(g, ctx):
     _run_rebound(g, ctx, x64)
   m = g['model']
   return {'mode': mode, 'pipeline': g.get('pipeline', 'all'),
+          'cat': g.get('cat'),
           'n_links': len(m['links']), 'dt': m['dt'], 'T': g['T'],
           'lanes': g['lanes'][:2], 'x64': g['x64'],
           'geom0': m['links'][0]['geoms'][0]['type']}
